@@ -128,8 +128,13 @@ def program_harness(name, nstmts, kinds, level="full"):
             model.new_sequence(e, [], None, False)
             return e
 
+        Z = GSched("Z", 6)              # an empty nested scheduler is a job like any other
+        NS = GSched("NS", 5, GJob("inner", 3))
+        model.req[Z] = set()
+        model.req[NS] = set()
+
         def req_args():
-            t = [None, a, b, [a, b], (a, [b]), {c}, [None, [c], d], [[]]]
+            t = [None, a, b, [a, b], (a, [b]), {c}, [None, [c], d], [[]], Z, [NS, Z]]
             for q in ("q0", "q1"):
                 if var[q] is not None:
                     t.append(var[q])
@@ -137,7 +142,7 @@ def program_harness(name, nstmts, kinds, level="full"):
                 t.append([var["q0"], a])
             t.append(fresh_empty())
             if level == "mini":
-                return [None, b, [None, [c], d]] + t[8:]
+                return [None, b, [None, [c], d], Z] + t[10:]
             return t if full_tables else t[:2] + t[3:4] + t[6:7] + t[8:]
 
         def seq_items():
@@ -298,7 +303,7 @@ def program_harness(name, nstmts, kinds, level="full"):
 
 
 def compare(model, jobs, S, var, info):
-    for j in jobs:
+    for j in list(model.req):
         got = set(j.required)
         if got != model.req[j]:
             raise Violation("C19: after `%s`: %s requires %s, the documented semantics give %s"
